@@ -98,6 +98,32 @@ class GetRateMatrix(Contract):
             cur = obj.fields[fld]
             V.forall(f"frame:self.{fld}-unchanged", n, lambda k, cur=cur, orig=orig: as_real(to_num(vget(ctx, cur, k))) == orig(k))
 
+    def to_case(self, vals, variant):
+        """solver model -> input of the replay harness (rtc/c01.py).  Stored positions are made a duplicate-free row-major
+        pattern (the contract's precondition, which the lazily instantiated model need not satisfy globally)."""
+        n, rows, cols = vals["n"], vals["row"], vals["col"]
+        if n is None or n < 2 or n > 40:
+            return None
+        seen, ent = set(), []
+        for k, (r, c) in enumerate(zip(rows, cols)):
+            if r is None or c is None or not (0 <= r < n and 0 <= c < n) or r == c or (r, c) in seen:
+                continue
+            seen.add((r, c))
+            ent.append((r, c, vals["S"][k], vals["h"][k]))
+        ent.sort()
+        pos = lambda x, d: float(x) if x is not None and x > 0 else d
+        raw = {"n": n, "fmt": variant, "rows": [e[0] for e in ent], "cols": [e[1] for e in ent],
+               "S": [pos(e[2], 1.0) for e in ent], "H": [pos(e[3], 1.0) for e in ent],
+               "V": [pos(v, 1.0) for v in vals["Vol"]], "E": [float(e or 0.0) for e in vals["E"]],
+               "D": pos(vals["D"], 1.0), "T": pos(vals["T"], 300.0), "shift": 0.0, "from_model": True}
+        # the model's reals are exact rationals chosen by the solver and often under/overflow in float arithmetic
+        # (encoding assumption E1); the second case keeps the model's discrete structure (n, pattern) and replaces the
+        # real values by generic moderate, pairwise different ones
+        m = len(ent)
+        tame = dict(raw, S=[1.0 + 0.31 * k for k in range(m)], H=[0.7 + 0.13 * k for k in range(m)],
+                    V=[1.0 + 0.37 * i for i in range(n)], E=[0.9 * i * (-1) ** i for i in range(n)], D=1.3, T=300.0)
+        return [raw, tame]
+
     def mustfail(self, V, variant, env, outcome):
         """perturbed twins that a sound prover must refute"""
         ctx = V.ctx
